@@ -177,7 +177,13 @@ def gather(ctx, pid):
             cleared.append(pre)
     for sub in list(bad):
         mine = [o for o in obs2 if o.rule == sub]
-        if sub not in bad2 and mine and _prefix(sub) not in errs2:
+        # (a finding of the same rule that only the canonical form shows
+        # means the two forms disagree about more than spelling: then the
+        # canonical form clears nothing of that rule)
+        moved = any(r not in bad and _prefix(r) == _prefix(sub)
+                    for r in bad2)
+        if sub not in bad2 and mine and _prefix(sub) not in errs2 \
+                and not moved:
             # every violated construct must have been looked at again: the
             # canonical form has an obligation of this sub-rule for the same
             # construct, or at least for the same function
